@@ -155,6 +155,17 @@ def step (line : String) : String :=
   | ["parse-struct", typ, decls] =>
     let priv := if PQ.Gen.Facts.exportedTest = "IsExported" then Parse.isPrivateUpper else Parse.isPrivateAZ
     "ok {" ++ ",".intercalate ((Parse.parseStruct priv (parseDecls decls) typ).map Parse.showField) ++ "}"
+  | ["struct-of", name, elems] =>
+    match Structs.structOf name (parseSEs elems) with
+    | none => "panic"
+    | some ds => toHex (strBytes (Structs.render ds))
+  | ["struct-of-tree", name, elems] =>
+    -- the field tree parse.Fields gives for the regenerated struct
+    match Structs.structOf name (parseSEs elems) with
+    | none => "panic"
+    | some ds =>
+      let priv := if PQ.Gen.Facts.exportedTest = "IsExported" then Parse.isPrivateUpper else Parse.isPrivateAZ
+      "ok {" ++ ",".intercalate ((Parse.parseStruct priv ds (Structs.title name)).map Parse.showField) ++ "}"
   | ["pack", w, g] =>
     match w.toNat? with
     | some w => toHex (pack w (unhex g))
